@@ -66,8 +66,9 @@ Proof. unfold sumZ. induction 1; simpl; lia. Qed.
 Lemma sumZ_omap {A} (f : A → option Z) l :
   sumZ (omap f l) = sumZ (map (λ x, default 0 (f x)) l).
 Proof.
-  unfold sumZ. induction l as [|x l IH]; simpl; [done|].
-  destruct (f x); simpl; lia.
+  unfold sumZ. induction l as [|x l IH]; [done|].
+  change (omap f (x :: l)) with (match f x with Some y => y :: omap f l | None => omap f l end).
+  simpl map. destruct (f x); simpl; lia.
 Qed.
 
 Lemma sumZ_map_ext {A} (f g : A → Z) l :
@@ -87,10 +88,10 @@ Qed.
 Lemma sumZ_map_filter {A} (P : A → Prop) `{!∀ x, Decision (P x)} (f : A → Z) l :
   (∀ x, x ∈ l → ¬ P x → f x = 0) → sumZ (map f l) = sumZ (map f (filter P l)).
 Proof.
-  unfold sumZ. induction l as [|x l IH]; simpl; intros H; [done|].
+  unfold sumZ. induction l as [|x l IH]; simpl; intros Hz; [done|].
   rewrite filter_cons. destruct (decide (P x)) as [HP|HP]; simpl.
-  - rewrite IH; [done|]. intros y Hy. apply H. by right.
-  - rewrite H by (done || left). rewrite IH; [done|]. intros y Hy. apply H. by right.
+  - rewrite IH; [done|]. intros y Hy. apply Hz. by right.
+  - rewrite Hz by (done || left). rewrite IH; [done|]. intros y Hy. apply Hz. by right.
 Qed.
 
 Lemma sumZ_flat_map {A B} (g : A → list B) (f : B → Z) l :
@@ -149,28 +150,35 @@ Proof.
     + intros x1 x2 y H1 H2. apply Hd; by right.
 Qed.
 
-Lemma omap_ext_elem {A B} (f g : A → option B) l :
+Lemma omap_cons' {A B} (f : A → option B) x (l : list A) :
+  omap f (x :: l) = match f x with Some y => y :: omap f l | None => omap f l end.
+Proof. done. Qed.
+
+Lemma omap_ext_elem {A B} (f g : A → option B) (l : list A) :
   (∀ x, x ∈ l → f x = g x) → omap f l = omap g l.
 Proof.
-  induction l as [|x l IH]; simpl; intros H; [done|].
-  rewrite H by left. rewrite IH; [done|]. intros y Hy. apply H. by right.
+  induction l as [|x l IH]; intros H; [done|].
+  rewrite !omap_cons'. rewrite H by left. rewrite IH; [done|]. intros y Hy. apply H. by right.
 Qed.
 
-Lemma omap_omap {A B C} (f : A → option B) (g : B → option C) l :
+Lemma omap_omap {A B C} (f : A → option B) (g : B → option C) (l : list A) :
   omap g (omap f l) = omap (λ x, f x ≫= g) l.
 Proof.
-  induction l as [|x l IH]; simpl; [done|].
-  destruct (f x); simpl; rewrite IH; done.
+  induction l as [|x l IH]; [done|].
+  rewrite !omap_cons'. destruct (f x) as [y|].
+  - rewrite omap_cons'. change (Some y ≫= g) with (g y). by rewrite IH.
+  - change (None ≫= g) with (@None C). done.
 Qed.
 
-Lemma NoDup_omap {A B} (f : A → option B) l :
+Lemma NoDup_omap {A B} (f : A → option B) (l : list A) :
   NoDup l →
   (∀ x1 x2 y, x1 ∈ l → x2 ∈ l → f x1 = Some y → f x2 = Some y → x1 = x2) →
   NoDup (omap f l).
 Proof.
-  induction 1 as [|x l Hx Hl IH]; simpl; intros Hinj; [constructor|].
+  induction 1 as [|x l Hx Hl IH]; intros Hinj; [constructor|].
   assert (NoDup (omap f l)) as IH'.
   { apply IH. intros x1 x2 y H1 H2. apply Hinj; by right. }
+  rewrite omap_cons'.
   destruct (f x) as [y|] eqn:Hfx; [|done].
   constructor; [|done].
   intros Hy. apply elem_of_list_omap in Hy as (x' & Hx' & Hfx').
@@ -186,4 +194,718 @@ Proof.
     destruct l as [|y l]; [done|].
     assert (y = a) as -> by (apply H; right; left).
     apply NoDup_cons in Hnd as [Hnd _]. exfalso. apply Hnd. left.
+Qed.
+
+Lemma map_fmap {A B} (f : A → B) (l : list A) : map f l = f <$> l.
+Proof. done. Qed.
+
+Lemma existsb_elem_of {A} (f : A → bool) l :
+  existsb f l = true ↔ ∃ x, x ∈ l ∧ f x = true.
+Proof.
+  rewrite existsb_exists. split; intros (x & Hx & Hf); exists x.
+  - by rewrite elem_of_list_In.
+  - by rewrite <-elem_of_list_In.
+Qed.
+
+Lemma elem_of_indices {A} (l : list A) (i : N) :
+  i ∈ indices l ↔ (N.to_nat i < length l)%nat.
+Proof.
+  unfold indices. rewrite map_fmap, elem_of_list_fmap. split.
+  - intros (n & -> & Hn). apply elem_of_seq in Hn. rewrite Nat2N.id. lia.
+  - intros Hi. exists (N.to_nat i). split; [by rewrite N2Nat.id|]. apply elem_of_seq. lia.
+Qed.
+
+Lemma NoDup_indices {A} (l : list A) : NoDup (indices l).
+Proof.
+  unfold indices. rewrite map_fmap. apply NoDup_fmap_2; [|apply NoDup_seq].
+  intros x y Hxy. by apply Nat2N.inj.
+Qed.
+
+Lemma NoDup_fst_unique {A B} (l : list (A * B)) x y1 y2 :
+  NoDup (map fst l) → (x, y1) ∈ l → (x, y2) ∈ l → y1 = y2.
+Proof.
+  induction l as [|[a b] l IH]; simpl; intros Hnd H1 H2; [by inversion H1|].
+  apply NoDup_cons in Hnd as [Hnotin Hnd].
+  apply elem_of_cons in H1 as [H1|H1]; apply elem_of_cons in H2 as [H2|H2].
+  - congruence.
+  - inversion H1; subst. exfalso. apply Hnotin. rewrite map_fmap.
+    apply elem_of_list_fmap. by exists (a, y2).
+  - inversion H2; subst. exfalso. apply Hnotin. rewrite map_fmap.
+    apply elem_of_list_fmap. by exists (a, y1).
+  - by apply IH.
+Qed.
+
+(** The contribution of one spendable output to [Balance minconf] at sync
+    height [sync] (unmined outputs carry height -1). *)
+Definition bal_contrib (minconf sync : Z) (u : utxo) : option Z :=
+  if bool_decide (u_height u < 0) then (if bool_decide (minconf = 0) then Some (u_amt u) else None)
+  else if bool_decide (minconf <= sync - u_height u + 1) &&
+          (negb (u_coinbase u) || bool_decide (coinbase_maturity <= sync - u_height u + 1))
+       then Some (u_amt u) else None.
+
+(** ** Sorted credit lists and indexed inputs (for [tx_details]) *)
+
+Global Instance N_le_dec_rel_trans : Transitive N_le_dec_rel.
+Proof. intros x y z. unfold N_le_dec_rel. lia. Qed.
+Global Instance N_le_dec_rel_total : Total N_le_dec_rel.
+Proof. intros x y. unfold N_le_dec_rel. lia. Qed.
+
+Lemma sorted_perm_unique (l1 l2 : list (N * bool)) :
+  StronglySorted N_le_dec_rel l1 → StronglySorted N_le_dec_rel l2 → l1 ≡ₚ l2 →
+  NoDup (map fst l1) → l1 = l2.
+Proof.
+  revert l2. induction l1 as [|x l1 IH]; intros l2 Hs1 Hs2 Hp Hnd.
+  - by apply Permutation_nil in Hp.
+  - destruct l2 as [|y l2]; [by apply Permutation_sym, Permutation_nil in Hp|].
+    apply StronglySorted_inv in Hs1 as [Hs1 Hf1]. apply StronglySorted_inv in Hs2 as [Hs2 Hf2].
+    simpl in Hnd. apply NoDup_cons in Hnd as [Hnotin Hnd].
+    assert (x = y) as ->.
+    { assert (x ∈ y :: l2) as Hx by (rewrite <-Hp; left).
+      assert (y ∈ x :: l1) as Hy by (rewrite Hp; left).
+      apply elem_of_cons in Hx as [Hx|Hx]; [done|].
+      apply elem_of_cons in Hy as [Hy|Hy]; [done|].
+      rewrite Forall_forall in Hf1, Hf2.
+      pose proof (Hf1 _ Hy) as H1. pose proof (Hf2 _ Hx) as H2. unfold N_le_dec_rel in H1, H2.
+      exfalso. apply Hnotin. rewrite map_fmap. apply elem_of_list_fmap. exists y. split; [lia|done]. }
+    f_equal. apply IH; try done. by apply Permutation_cons_inv in Hp.
+Qed.
+
+Lemma sorted_indices_from k n : StronglySorted N.lt (map N.of_nat (seq k n)).
+Proof.
+  revert k. induction n as [|n IH]; intros k; simpl; constructor; [apply IH|].
+  rewrite Forall_forall. intros j Hj. rewrite map_fmap in Hj.
+  apply elem_of_list_fmap in Hj as (m & -> & Hm). apply elem_of_seq in Hm. lia.
+Qed.
+
+Lemma sorted_omap_sel (sel : N → option (N * bool)) l :
+  (∀ i y, sel i = Some y → y.1 = i) → StronglySorted N.lt l →
+  StronglySorted N_le_dec_rel (omap sel l).
+Proof.
+  intros Hsel. induction 1 as [|a l Hs IH Hf]; [constructor|].
+  rewrite omap_cons'. destruct (sel a) as [x|] eqn:Hx; [|done].
+  constructor; [done|]. rewrite Forall_forall. intros y Hy.
+  apply elem_of_list_omap in Hy as (j & Hj & Hy). rewrite Forall_forall in Hf.
+  apply Hf in Hj. apply Hsel in Hx, Hy. unfold N_le_dec_rel. lia.
+Qed.
+
+Lemma omap_indices_zip_from {A B} (l : list A) (f : N → option B) (g : N * A → option B) k :
+  (∀ i x, l !! i = Some x → f (N.of_nat (k + i)) = g (N.of_nat (k + i), x)) →
+  omap f (map N.of_nat (seq k (length l))) = omap g (zip (map N.of_nat (seq k (length l))) l).
+Proof.
+  revert k. induction l as [|x l IH]; intros k H; [done|].
+  simpl length. simpl seq. simpl map. simpl zip. rewrite !omap_cons'.
+  pose proof (H 0%nat x eq_refl) as H0. rewrite Nat.add_0_r in H0. rewrite H0.
+  rewrite (IH (S k)); [done|].
+  intros i y Hi. replace (S k + i)%nat with (k + S i)%nat by lia. by apply H.
+Qed.
+
+Lemma omap_indices_zip {A B} (l : list A) (f : N → option B) (g : N * A → option B) :
+  (∀ i x, l !! i = Some x → f (N.of_nat i) = g (N.of_nat i, x)) →
+  omap f (indices l) = omap g (zip (indices l) l).
+Proof. intros H. unfold indices. by apply omap_indices_zip_from. Qed.
+
+(** * Bucket characterisations under the invariant *)
+
+Section obs.
+  Context (U : gmap N tx) (s : store) (F : facts).
+  Context (Hwf : wf_universe U = true) (HI : Inv U s F).
+
+  Lemma known_true t : known F t = true ↔ is_Some (f_conf F !! t) ∨ t ∈ f_unconf F.
+  Proof. unfold known. rewrite orb_true_iff, !bool_decide_eq_true. done. Qed.
+
+  Lemma elem_of_conf_list t :
+    t ∈ map fst (map_to_list (f_conf F)) ↔ is_Some (f_conf F !! t).
+  Proof.
+    rewrite map_fmap, elem_of_list_fmap. split.
+    - intros ([k b] & -> & H). apply elem_of_map_to_list in H. by eexists.
+    - intros [b H]. exists (t, b). split; [done|]. by apply elem_of_map_to_list.
+  Qed.
+
+  Lemma elem_of_known_list t :
+    t ∈ known_list F ↔ is_Some (f_conf F !! t) ∨ t ∈ f_unconf F.
+  Proof. unfold known_list. rewrite elem_of_app, elem_of_conf_list, elem_of_elements. done. Qed.
+
+  Lemma NoDup_known_list : NoDup (known_list F).
+  Proof.
+    unfold known_list. apply NoDup_app. split_and!.
+    - rewrite map_fmap. apply NoDup_fst_map_to_list.
+    - intros t H1 H2. apply elem_of_conf_list in H1. apply elem_of_elements in H2.
+      by eapply (fw_disjoint U F (inv_wf U s F HI)).
+    - apply NoDup_elements.
+  Qed.
+
+  Lemma known_in_universe t :
+    is_Some (f_conf F !! t) ∨ t ∈ f_unconf F → ∃ x, U !! t = Some x ∧ wf_tx_P t x.
+  Proof.
+    intros H. destruct (fw_in_universe U F (inv_wf U s F HI) t H) as [x Hx].
+    exists x. split; [done|]. by eapply wf_universe_lookup.
+  Qed.
+
+  Lemma spends_true t op : spends U t op = true ↔ op ∈ tx_ins U t.
+  Proof. unfold spends. by rewrite bool_decide_eq_true. Qed.
+
+  Lemma spent_by_known_true op :
+    spent_by_known U F op = true ↔
+    (∃ m, conf_spender U F op m) ∨ (∃ u, unconf_spender U F op u).
+  Proof.
+    unfold spent_by_known, conf_spender, unconf_spender. rewrite existsb_elem_of. split.
+    - intros (t & Ht & Hsp). apply spends_true in Hsp. apply elem_of_known_list in Ht as [Ht|Ht].
+      + left. by exists t.
+      + right. by exists t.
+    - intros [(t & Ht & Hsp)|(t & Ht & Hsp)]; exists t; rewrite spends_true, elem_of_known_list; auto.
+  Qed.
+
+  Lemma spent_by_confirmed_true op :
+    spent_by_confirmed U F op = true ↔ ∃ m, conf_spender U F op m.
+  Proof.
+    unfold spent_by_confirmed, conf_spender. rewrite existsb_elem_of. split.
+    - intros (t & Ht & Hsp). apply spends_true in Hsp. apply elem_of_conf_list in Ht. by exists t.
+    - intros (t & Ht & Hsp). exists t. by rewrite spends_true, elem_of_conf_list.
+  Qed.
+
+  Lemma unmined_inputs_some op :
+    is_Some (unmined_inputs s !! op) ↔ ∃ u, unconf_spender U F op u.
+  Proof.
+    split.
+    - intros [l Hl]. destruct (inv_unmined_inputs_sound U s F HI op l Hl) as (Hne & _ & Hiff).
+      destruct l as [|u l]; [done|]. exists u. apply Hiff. left.
+    - intros [u Hu]. by eapply inv_unmined_inputs_complete.
+  Qed.
+
+  Lemma is_locked_b_leased op now : is_locked_b s op now = leased F op now.
+  Proof.
+    unfold is_locked_b, is_locked, leased. rewrite (inv_locked U s F HI).
+    destruct (f_leases F !! op) as [l|]; [|done]. by case_bool_decide.
+  Qed.
+
+  (** no confirmed transaction spends an output of an unconfirmed one *)
+  Lemma unconf_no_conf_spender op :
+    op.1 ∈ f_unconf F → ¬ ∃ m, conf_spender U F op m.
+  Proof.
+    intros Hu (m & [[h bh] Hm] & Hin).
+    destruct (fw_parents_confirmed U F (inv_wf U s F HI) m h bh op Hm Hin (or_intror Hu))
+      as (ph & pbh & Hp & _).
+    eapply (fw_disjoint U F (inv_wf U s F HI)); [|exact Hu]. by eexists.
+  Qed.
+
+  Lemma creds_of_lookup t x : U !! t = Some x → creds_of U t = t_creds x.
+  Proof. unfold creds_of. by intros ->. Qed.
+
+  Lemma amount_of_lookup op x : U !! op.1 = Some x → amount_of U op = out_amount x op.2.
+  Proof. unfold amount_of. by intros ->. Qed.
+
+  Lemma credited_change_unique op c1 c2 :
+    is_credited U op c1 → is_credited U op c2 → c1 = c2.
+  Proof.
+    unfold is_credited, creds_of. destruct (U !! op.1) as [x|] eqn:Hx; [|by intros H; inversion H].
+    pose proof (wt_creds_nodup _ _ (wf_universe_lookup _ _ _ Hwf Hx)) as Hnd.
+    intros H1 H2. by eapply NoDup_fst_unique.
+  Qed.
+
+  (** ** Spendable outputs *)
+
+  Definition mk_utxo (t : tx) (i : N) : utxo :=
+    match f_conf F !! t_id t with
+    | Some (h, bhash) => {| u_op := (t_id t, i); u_amt := out_amount t i; u_height := h;
+                            u_hash := bhash; u_coinbase := t_coinbase t |}
+    | None => {| u_op := (t_id t, i); u_amt := out_amount t i; u_height := -1;
+                 u_hash := 0%N; u_coinbase := t_coinbase t |}
+    end.
+
+  Lemma elem_of_credited_outputs t i chg :
+    (t, i, chg) ∈ credited_outputs U F ↔
+    (is_Some (f_conf F !! t_id t) ∨ t_id t ∈ f_unconf F) ∧ U !! t_id t = Some t ∧ (i, chg) ∈ t_creds t.
+  Proof.
+    unfold credited_outputs. rewrite elem_of_flat_map. split.
+    - intros (h & Hh & Hin). destruct (U !! h) as [x|] eqn:Hx; [|by inversion Hin].
+      rewrite map_fmap in Hin. apply elem_of_list_fmap in Hin as ([i' c'] & Heq & Hic).
+      simpl in Heq. injection Heq as -> -> ->.
+      pose proof (wt_id _ _ (wf_universe_lookup _ _ _ Hwf Hx)) as Hid. rewrite Hid.
+      apply elem_of_known_list in Hh. done.
+    - intros (Hk & Hx & Hic). exists (t_id t). split; [by apply elem_of_known_list|].
+      rewrite Hx, map_fmap. apply elem_of_list_fmap. by exists (i, chg).
+  Qed.
+
+  Lemma NoDup_credited_outputs : NoDup (credited_outputs U F).
+  Proof.
+    unfold credited_outputs. apply NoDup_flat_map.
+    - apply NoDup_known_list.
+    - intros h _. destruct (U !! h) as [x|] eqn:Hx; [|constructor].
+      rewrite map_fmap. apply NoDup_fmap_2.
+      + intros [a1 b1] [a2 b2] Heq. simpl in Heq. by injection Heq as -> ->.
+      + eapply NoDup_fmap_1. rewrite <-map_fmap.
+        exact (wt_creds_nodup _ _ (wf_universe_lookup _ _ _ Hwf Hx)).
+    - intros h1 h2 y _ _ H1 H2.
+      destruct (U !! h1) as [x1|] eqn:Hx1; [|by inversion H1].
+      destruct (U !! h2) as [x2|] eqn:Hx2; [|by inversion H2].
+      rewrite map_fmap in H1, H2.
+      apply elem_of_list_fmap in H1 as (ic1 & -> & _).
+      apply elem_of_list_fmap in H2 as (ic2 & Heq & _).
+      injection Heq as -> _ _.
+      rewrite <-(wt_id _ _ (wf_universe_lookup _ _ _ Hwf Hx1)).
+      by rewrite <-(wt_id _ _ (wf_universe_lookup _ _ _ Hwf Hx2)).
+  Qed.
+
+  (** the common description of both lists *)
+  Definition is_utxo (now : Z) (u : utxo) : Prop :=
+    ∃ t i chg, (t, i, chg) ∈ credited_outputs U F ∧
+      spent_by_known U F (t_id t, i) = false ∧ leased F (t_id t, i) now = false ∧
+      u = mk_utxo t i.
+
+  Definition utxo_fn (now : Z) (x : tx * N * bool) : option utxo :=
+    if spent_by_known U F (t_id x.1.1, x.1.2) || leased F (t_id x.1.1, x.1.2) now then None
+    else Some (mk_utxo x.1.1 x.1.2).
+
+  Lemma spec_utxos_alt now : spec_utxos U F now = omap (utxo_fn now) (credited_outputs U F).
+  Proof.
+    unfold spec_utxos. apply omap_ext_elem. intros [[t i] chg] _.
+    unfold utxo_fn, mk_utxo; simpl. destruct (_ || _); [done|].
+    by destruct (f_conf F !! t_id t) as [[h bh]|].
+  Qed.
+
+  Lemma elem_of_spec_utxos now u : u ∈ spec_utxos U F now ↔ is_utxo now u.
+  Proof.
+    rewrite spec_utxos_alt. unfold is_utxo. rewrite elem_of_list_omap. split.
+    - intros ([[t i] chg] & Hin & Hf). unfold utxo_fn in Hf. simpl in Hf.
+      destruct (spent_by_known U F (t_id t, i)) eqn:Hsp; [done|].
+      destruct (leased F (t_id t, i) now) eqn:Hl; [done|]. simpl in Hf.
+      injection Hf as <-. by exists t, i, chg.
+    - intros (t & i & chg & Hin & Hsp & Hl & ->). exists (t, i, chg). split; [done|].
+      unfold utxo_fn. simpl. rewrite Hsp, Hl. done.
+  Qed.
+
+  Definition keepb (op : N * N) (now : Z) : bool :=
+    negb (is_locked_b s op now) && negb (bool_decide (is_Some (unmined_inputs s !! op))).
+
+  Definition mined_fn (now : Z) (kv : (N * N) * (Z * N)) : option utxo :=
+    if keepb kv.1 now then
+      match U !! kv.1.1 with
+      | Some t => Some {| u_op := kv.1; u_amt := out_amount t kv.1.2; u_height := kv.2.1;
+                          u_hash := kv.2.2; u_coinbase := t_coinbase t |}
+      | None => None
+      end
+    else None.
+
+  Definition unm_fn (now : Z) (kv : (N * N) * (Z * bool)) : option utxo :=
+    if keepb kv.1 now then
+      match unmined s !! kv.1.1, U !! kv.1.1 with
+      | Some _, Some t => Some {| u_op := kv.1; u_amt := out_amount t kv.1.2; u_height := -1;
+                                  u_hash := 0%N; u_coinbase := t_coinbase t |}
+      | _, _ => None
+      end
+    else None.
+
+  Lemma unspent_outputs_alt now :
+    unspent_outputs U s now =
+    omap (mined_fn now) (map_to_list (unspent s)) ++ omap (unm_fn now) (map_to_list (unmined_credits s)).
+  Proof.
+    unfold unspent_outputs, fetch_credits. f_equal; apply omap_ext_elem.
+    - by intros [op [h bh]] _.
+    - by intros [op [a chg]] _.
+  Qed.
+
+  Lemma keepb_true op now :
+    keepb op now = true ↔ leased F op now = false ∧ ¬ ∃ u, unconf_spender U F op u.
+  Proof.
+    unfold keepb. rewrite andb_true_iff, !negb_true_iff, is_locked_b_leased.
+    rewrite bool_decide_eq_false, unmined_inputs_some. done.
+  Qed.
+
+  Lemma spent_by_known_false op :
+    spent_by_known U F op = false ↔
+    (¬ ∃ m, conf_spender U F op m) ∧ (¬ ∃ u, unconf_spender U F op u).
+  Proof. rewrite <-not_true_iff_false, spent_by_known_true. tauto. Qed.
+
+  Lemma conf_not_unconf t b : f_conf F !! t = Some b → t ∉ f_unconf F.
+  Proof. intros Hc. eapply (fw_disjoint U F (inv_wf U s F HI)). by eexists. Qed.
+
+  Lemma unconf_not_conf t : t ∈ f_unconf F → f_conf F !! t = None.
+  Proof.
+    intros Hu. destruct (f_conf F !! t) as [b|] eqn:Hc; [|done].
+    exfalso. by eapply conf_not_unconf.
+  Qed.
+
+  Lemma elem_of_unspent_outputs now u : u ∈ unspent_outputs U s now ↔ is_utxo now u.
+  Proof.
+    rewrite unspent_outputs_alt, elem_of_app, !elem_of_list_omap. unfold is_utxo. split.
+    - intros [([[h0 i0] [h bh]] & Hin & Hf)|([[h0 i0] [a chg]] & Hin & Hf)].
+      + unfold mined_fn in Hf. simpl in Hf.
+        destruct (keepb (h0, i0) now) eqn:Hk; [|done]. apply keepb_true in Hk as [Hl Hnu].
+        destruct (U !! h0) as [t|] eqn:Ht; [|done]. injection Hf as <-.
+        apply elem_of_map_to_list in Hin.
+        apply (inv_unspent U s F HI) in Hin as (Hc & [chg Hcr] & Hns). simpl in Hc.
+        pose proof (wt_id _ _ (wf_universe_lookup _ _ _ Hwf Ht)) as Hid.
+        unfold is_credited in Hcr. simpl in Hcr. rewrite (creds_of_lookup _ _ Ht) in Hcr.
+        exists t, i0, chg. rewrite Hid. split_and!.
+        * apply elem_of_credited_outputs. rewrite Hid. split_and!; [left; by eexists|done..].
+        * by apply spent_by_known_false.
+        * done.
+        * unfold mk_utxo. rewrite Hid, Hc. done.
+      + unfold unm_fn in Hf. simpl in Hf.
+        destruct (keepb (h0, i0) now) eqn:Hk; [|done]. apply keepb_true in Hk as [Hl Hnu].
+        destruct (unmined s !! h0) as [[]|] eqn:Hm; [|done].
+        destruct (U !! h0) as [t|] eqn:Ht; [|done]. injection Hf as <-.
+        apply elem_of_map_to_list in Hin.
+        apply (inv_unmined_credits U s F HI) in Hin as (Hu & Hcr & Ha). simpl in Hu.
+        pose proof (wt_id _ _ (wf_universe_lookup _ _ _ Hwf Ht)) as Hid.
+        unfold is_credited in Hcr. simpl in Hcr. rewrite (creds_of_lookup _ _ Ht) in Hcr.
+        exists t, i0, chg. rewrite Hid. split_and!.
+        * apply elem_of_credited_outputs. rewrite Hid. split_and!; [by right|done..].
+        * apply spent_by_known_false. split; [|done]. by apply unconf_no_conf_spender.
+        * done.
+        * unfold mk_utxo. rewrite Hid, (unconf_not_conf _ Hu). done.
+    - intros (t & i & chg & Hin & Hsp & Hl & ->).
+      apply elem_of_credited_outputs in Hin as (Hk & Ht & Hic).
+      apply spent_by_known_false in Hsp as [Hnc Hnu].
+      assert (keepb (t_id t, i) now = true) as Hkeep by by apply keepb_true.
+      destruct Hk as [[[h bh] Hc]|Hu].
+      + left. exists ((t_id t, i), (h, bh)). split.
+        * apply elem_of_map_to_list. apply (inv_unspent U s F HI). simpl. split_and!; [done| |done].
+          exists chg. unfold is_credited. simpl. by rewrite (creds_of_lookup _ _ Ht).
+        * unfold mined_fn, mk_utxo. simpl. rewrite Hkeep, Ht, Hc. done.
+      + right. exists ((t_id t, i), (amount_of U (t_id t, i), chg)). split.
+        * apply elem_of_map_to_list. apply (inv_unmined_credits U s F HI). simpl. split_and!; [done| |done].
+          unfold is_credited. simpl. by rewrite (creds_of_lookup _ _ Ht).
+        * unfold unm_fn, mk_utxo. simpl. rewrite Hkeep, Ht, (unconf_not_conf _ Hu).
+          destruct (proj2 (inv_unmined U s F HI (t_id t)) Hu) as [[] ->]. done.
+  Qed.
+
+  Lemma mk_utxo_op t i : u_op (mk_utxo t i) = (t_id t, i).
+  Proof. unfold mk_utxo. by destruct (f_conf F !! t_id t) as [[h bh]|]. Qed.
+
+  Lemma utxo_fn_Some now x y : utxo_fn now x = Some y → y = mk_utxo x.1.1 x.1.2.
+  Proof. unfold utxo_fn. destruct (_ || _); [done|]. by intros [= <-]. Qed.
+
+  Lemma NoDup_spec_utxos now : NoDup (spec_utxos U F now).
+  Proof.
+    rewrite spec_utxos_alt. apply NoDup_omap; [apply NoDup_credited_outputs|].
+    intros [[t1 i1] c1] [[t2 i2] c2] y H1 H2 Hf1 Hf2.
+    apply utxo_fn_Some in Hf1, Hf2. simpl in Hf1, Hf2.
+    assert (u_op y = (t_id t1, i1)) as Ho1 by (by rewrite Hf1, mk_utxo_op).
+    assert (u_op y = (t_id t2, i2)) as Ho2 by (by rewrite Hf2, mk_utxo_op).
+    rewrite Ho1 in Ho2. injection Ho2 as Hid ->.
+    apply elem_of_credited_outputs in H1 as (_ & Ht1 & Hc1).
+    apply elem_of_credited_outputs in H2 as (_ & Ht2 & Hc2).
+    rewrite Hid, Ht2 in Ht1. injection Ht1 as <-.
+    pose proof (wt_creds_nodup _ _ (wf_universe_lookup _ _ _ Hwf Ht2)) as Hnd.
+    by rewrite (NoDup_fst_unique _ _ _ _ Hnd Hc1 Hc2).
+  Qed.
+
+  Lemma mined_fn_Some now kv y :
+    mined_fn now kv = Some y → u_op y = kv.1 ∧ u_height y = kv.2.1 ∧ u_hash y = kv.2.2.
+  Proof.
+    unfold mined_fn. destruct (keepb kv.1 now); [|done].
+    destruct (U !! kv.1.1); [|done]. by intros [= <-].
+  Qed.
+
+  Lemma unm_fn_Some now kv y : unm_fn now kv = Some y → u_op y = kv.1.
+  Proof.
+    unfold unm_fn. destruct (keepb kv.1 now); [|done].
+    destruct (unmined s !! kv.1.1); [|done].
+    destruct (U !! kv.1.1); [|done]. by intros [= <-].
+  Qed.
+
+  Lemma NoDup_unspent_outputs now : NoDup (unspent_outputs U s now).
+  Proof.
+    rewrite unspent_outputs_alt. apply NoDup_app. split_and!.
+    - apply NoDup_omap; [apply NoDup_map_to_list|].
+      intros [o1 [h1 b1]] [o2 [h2 b2]] y _ _ Hf1 Hf2.
+      apply mined_fn_Some in Hf1 as (Ha1 & Hb1 & Hc1), Hf2 as (Ha2 & Hb2 & Hc2).
+      simpl in *. congruence.
+    - intros y H1 H2. apply elem_of_list_omap in H1 as ([o1 [h1 b1]] & Hin1 & Hf1).
+      apply elem_of_list_omap in H2 as ([o2 [a2 c2]] & Hin2 & Hf2).
+      apply mined_fn_Some in Hf1 as (Ha1 & _). apply unm_fn_Some in Hf2. simpl in *.
+      rewrite Ha1 in Hf2. subst o2.
+      apply elem_of_map_to_list in Hin1, Hin2.
+      apply (inv_unspent U s F HI) in Hin1 as (Hc & _).
+      apply (inv_unmined_credits U s F HI) in Hin2 as (Hu & _).
+      by eapply conf_not_unconf.
+    - apply NoDup_omap; [apply NoDup_map_to_list|].
+      intros [o1 v1] [o2 v2] y Hin1 Hin2 Hf1 Hf2.
+      apply unm_fn_Some in Hf1, Hf2. simpl in *. rewrite Hf1 in Hf2. subst o2.
+      apply elem_of_map_to_list in Hin1, Hin2. congruence.
+  Qed.
+  (** ** Unmined hashes *)
+
+  Lemma unmined_hashes_perm : unmined_hashes s ≡ₚ elements (f_unconf F).
+  Proof.
+    unfold unmined_hashes. apply NoDup_Permutation.
+    - rewrite map_fmap. apply NoDup_fst_map_to_list.
+    - apply NoDup_elements.
+    - intros t. rewrite elem_of_elements, <-(inv_unmined U s F HI), map_fmap, elem_of_list_fmap. split.
+      + intros ([k v] & -> & Hin). apply elem_of_map_to_list in Hin. by eexists.
+      + intros [v Hv]. exists (t, v). split; [done|]. by apply elem_of_map_to_list.
+  Qed.
+
+  (** ** Balance: the model's folds as sums *)
+
+  Definition young (minconf sync h : Z) (cb : bool) : bool :=
+    bool_decide (sync - h + 1 < minconf) || (cb && bool_decide (sync - h + 1 < coinbase_maturity)).
+
+  Definition w1 (now : Z) (kv : (N * N) * (Z * N)) : Z :=
+    if keepb kv.1 now then 0
+    else match credits s !! (kv.1.1, kv.2.1, kv.2.2, kv.1.2) with Some cv => c_amt cv | None => 0 end.
+
+  Definition w_out (minconf sync now h : Z) (bh : N) (cb : bool) (txh i : N) : Z :=
+    if keepb (txh, i) now then
+      match credits s !! (txh, h, bh, i) with
+      | None => 0
+      | Some cv => if c_spent cv then 0 else if young minconf sync h cb then c_amt cv else 0
+      end
+    else 0.
+
+  Definition w_tx (minconf sync now h : Z) (bh : N) (txh : N) : Z :=
+    match U !! txh with
+    | None => 0
+    | Some t => sumZ (map (w_out minconf sync now h bh (t_coinbase t) txh) (indices (t_outs t)))
+    end.
+
+  Definition w_blk (minconf sync now : Z) (kv : Z * blockrec) : Z :=
+    if bool_decide (kv.1 < sync - Z.max minconf coinbase_maturity) then 0
+    else sumZ (map (w_tx minconf sync now kv.1 (b_hash kv.2)) (b_txs kv.2)).
+
+  Definition w3 (now : Z) (kv : (N * N) * (Z * bool)) : Z :=
+    if keepb kv.1 now then kv.2.1 else 0.
+
+  Lemma balance_unfold minconf sync now :
+    balance U s minconf sync now =
+    bal s - sumZ (map (w1 now) (map_to_list (unspent s)))
+          - sumZ (map (w_blk minconf sync now) (map_to_list (blocks s)))
+          + (if bool_decide (minconf = 0)
+             then sumZ (map (w3 now) (map_to_list (unmined_credits s))) else 0).
+  Proof.
+    unfold balance. cbv zeta.
+    match goal with |- context [foldl ?G (bal s) ?l] =>
+      rewrite (foldl_sub G (w1 now) l (bal s)) end.
+    2:{ intros b [op [h bh]] _. unfold w1, keepb. simpl.
+        destruct (is_locked_b s op now); simpl; [lia|].
+        destruct (bool_decide (is_Some (unmined_inputs s !! op))); simpl; lia. }
+    match goal with |- context [foldl ?G (bal s - ?x) ?l] =>
+      rewrite (foldl_sub G (w_blk minconf sync now) l (bal s - x)) end.
+    2:{ intros b [h br] _. unfold w_blk. simpl.
+        destruct (bool_decide (h < sync - Z.max minconf coinbase_maturity)); [lia|].
+        apply foldl_sub. intros b' txh _. unfold w_tx.
+        destruct (U !! txh) as [t|]; [|lia].
+        apply foldl_sub. intros b'' i _. unfold w_out, keepb.
+        destruct (is_locked_b s (txh, i) now); simpl; [lia|].
+        destruct (bool_decide (is_Some (unmined_inputs s !! (txh, i)))); simpl; [lia|].
+        destruct (credits s !! (txh, h, b_hash br, i)) as [cv|]; [|lia].
+        destruct (c_spent cv); [lia|]. unfold young.
+        destruct (_ || _); lia. }
+    destruct (bool_decide (minconf = 0)); [|lia].
+    apply foldl_add. intros b [op [amt c]] _. unfold w3, keepb. simpl.
+    destruct (is_locked_b s op now); simpl; [lia|].
+    destruct (bool_decide (is_Some (unmined_inputs s !! op))); simpl; lia.
+  Qed.
+
+  (** every (tx, block, output index) incidence of the block records *)
+  Definition quads : list (N * Z * N * N) :=
+    flat_map (λ kv : Z * blockrec,
+      flat_map (λ txh, match U !! txh with
+                       | Some t => map (λ i, (txh, kv.1, b_hash kv.2, i)) (indices (t_outs t))
+                       | None => []
+                       end) (b_txs kv.2)) (map_to_list (blocks s)).
+
+  Lemma elem_of_quads txh h bh i :
+    (txh, h, bh, i) ∈ quads ↔
+    ∃ br t, blocks s !! h = Some br ∧ b_hash br = bh ∧ txh ∈ b_txs br ∧
+            U !! txh = Some t ∧ (N.to_nat i < length (t_outs t))%nat.
+  Proof.
+    unfold quads. rewrite elem_of_flat_map. split.
+    - intros ([h' br] & Hin & Hq). apply elem_of_map_to_list in Hin. simpl in Hq.
+      apply elem_of_flat_map in Hq as (txh' & Htx & Hq).
+      destruct (U !! txh') as [t|] eqn:Ht; [|by inversion Hq].
+      rewrite map_fmap in Hq. apply elem_of_list_fmap in Hq as (i' & Heq & Hi).
+      injection Heq as -> -> -> ->. apply elem_of_indices in Hi.
+      by exists br, t.
+    - intros (br & t & Hb & Hbh & Htx & Ht & Hi). exists (h, br). split; [by apply elem_of_map_to_list|].
+      simpl. apply elem_of_flat_map. exists txh. split; [done|]. rewrite Ht, map_fmap.
+      apply elem_of_list_fmap. exists i. split; [by rewrite Hbh|]. by apply elem_of_indices.
+  Qed.
+
+  Lemma NoDup_quads : NoDup quads.
+  Proof.
+    unfold quads. apply NoDup_flat_map.
+    - apply NoDup_map_to_list.
+    - intros [h br] Hin. apply elem_of_map_to_list in Hin. simpl.
+      destruct (inv_blocks_sound U s F HI h br Hin) as (_ & Hnd & _).
+      apply NoDup_flat_map; [done| |].
+      + intros txh _. destruct (U !! txh) as [t|]; [|constructor].
+        rewrite map_fmap. apply NoDup_fmap_2; [|apply NoDup_indices].
+        intros i1 i2 Heq. by injection Heq.
+      + intros t1 t2 y _ _ H1 H2.
+        destruct (U !! t1) as [x1|]; [|by inversion H1].
+        destruct (U !! t2) as [x2|]; [|by inversion H2].
+        rewrite map_fmap in H1, H2.
+        apply elem_of_list_fmap in H1 as (i1 & -> & _).
+        apply elem_of_list_fmap in H2 as (i2 & Heq & _). by injection Heq.
+    - intros [h1 br1] [h2 br2] y Hin1 Hin2 H1 H2. simpl in H1, H2.
+      apply elem_of_flat_map in H1 as (t1 & _ & H1).
+      apply elem_of_flat_map in H2 as (t2 & _ & H2).
+      destruct (U !! t1) as [x1|]; [|by inversion H1].
+      destruct (U !! t2) as [x2|]; [|by inversion H2].
+      rewrite map_fmap in H1, H2.
+      apply elem_of_list_fmap in H1 as (i1 & -> & _).
+      apply elem_of_list_fmap in H2 as (i2 & Heq & _).
+      injection Heq as _ Hh _ _. subst h2.
+      apply elem_of_map_to_list in Hin1, Hin2. congruence.
+  Qed.
+
+  Definition wq (minconf sync now : Z) (q : N * Z * N * N) : Z :=
+    if bool_decide (q.1.1.2 < sync - Z.max minconf coinbase_maturity) then 0
+    else w_out minconf sync now q.1.1.2 q.1.2 (is_coinbase U q.1.1.1) q.1.1.1 q.2.
+
+  Lemma sum_blocks_quads minconf sync now :
+    sumZ (map (w_blk minconf sync now) (map_to_list (blocks s))) =
+    sumZ (map (wq minconf sync now) quads).
+  Proof.
+    unfold quads. rewrite sumZ_flat_map. apply sumZ_map_ext. intros [h br] _.
+    unfold w_blk. simpl. rewrite sumZ_flat_map.
+    destruct (bool_decide (h < sync - Z.max minconf coinbase_maturity)) eqn:Hlast.
+    - symmetry. apply sumZ_map_zero. intros txh _. apply sumZ_map_zero. intros q Hq.
+      destruct (U !! txh) as [t|]; [|by inversion Hq].
+      rewrite map_fmap in Hq. apply elem_of_list_fmap in Hq as (i & -> & _).
+      unfold wq. simpl. by rewrite Hlast.
+    - apply sumZ_map_ext. intros txh _. unfold w_tx.
+      destruct (U !! txh) as [t|] eqn:Ht; [|done].
+      rewrite sumZ_map_map. apply sumZ_map_ext. intros i _.
+      unfold wq. simpl. rewrite Hlast. unfold is_coinbase. by rewrite Ht.
+  Qed.
+
+  (** a present unspent-index entry has its credit record *)
+  Lemma unspent_credit op h bh :
+    unspent s !! op = Some (h, bh) →
+    ∃ cv, credits s !! (op.1, h, bh, op.2) = Some cv ∧ c_amt cv = amount_of U op ∧ c_spent cv = false.
+  Proof.
+    intros Hu. apply (inv_unspent U s F HI) in Hu as (Hc & [chg Hcr] & Hns).
+    destruct op as [t i]. simpl in *.
+    destruct (inv_credits_complete U s F HI t h bh i chg Hc Hcr) as [cv Hcv].
+    exists cv. split; [done|].
+    destruct (inv_credits_sound U s F HI t h bh i cv Hcv) as (_ & _ & Ha & Hsp).
+    split; [done|]. destruct (c_spent cv); [|done]. exfalso. apply Hns. by apply Hsp.
+  Qed.
+
+  Lemma credit_unspent t h bh i cv :
+    credits s !! (t, h, bh, i) = Some cv → c_spent cv = false → unspent s !! (t, i) = Some (h, bh).
+  Proof.
+    intros Hcv Hsp. destruct (inv_credits_sound U s F HI t h bh i cv Hcv) as (Hc & Hcr & _ & Hiff).
+    apply (inv_unspent U s F HI). simpl. split_and!; [done|by eexists|].
+    intros Hm. apply Hiff in Hm. congruence.
+  Qed.
+
+  Definition w2 (minconf sync now : Z) (kv : (N * N) * (Z * N)) : Z :=
+    if bool_decide (kv.2.1 < sync - Z.max minconf coinbase_maturity) then 0
+    else if keepb kv.1 now then
+           if young minconf sync kv.2.1 (is_coinbase U kv.1.1) then amount_of U kv.1 else 0
+         else 0.
+
+  Definition quad_entry (q : N * Z * N * N) : (N * N) * (Z * N) :=
+    ((q.1.1.1, q.2), (q.1.1.2, q.1.2)).
+  Definition quad_live (q : N * Z * N * N) : Prop :=
+    unspent s !! (q.1.1.1, q.2) = Some (q.1.1.2, q.1.2).
+  Global Instance quad_live_dec q : Decision (quad_live q).
+  Proof. unfold quad_live. apply _. Defined.
+
+  Lemma quads_unspent_perm : map quad_entry (filter quad_live quads) ≡ₚ map_to_list (unspent s).
+  Proof.
+    apply NoDup_Permutation.
+    - rewrite map_fmap. apply NoDup_fmap_2; [|apply NoDup_filter, NoDup_quads].
+      intros [[[t1 h1] b1] i1] [[[t2 h2] b2] i2] Heq. unfold quad_entry in Heq. simpl in Heq.
+      by injection Heq as -> -> -> ->.
+    - apply NoDup_map_to_list.
+    - intros [[t i] [h bh]]. rewrite map_fmap, elem_of_list_fmap, elem_of_map_to_list. split.
+      + intros ([[[t' h'] b'] i'] & Heq & Hin). apply elem_of_list_filter in Hin as [Hlive _].
+        unfold quad_entry in Heq. simpl in Heq. injection Heq as -> -> -> ->. exact Hlive.
+      + intros Hu. exists (t, h, bh, i). split; [done|]. apply elem_of_list_filter. split; [exact Hu|].
+        apply (inv_unspent U s F HI) in Hu as (Hc & [chg Hcr] & Hns). simpl in *.
+        destruct (inv_blocks_complete U s F HI t h bh Hc) as (br & Hb & Hbh & Htx).
+        destruct (known_in_universe t) as (x & Hx & Hwx); [left; by eexists|].
+        apply elem_of_quads. exists br, x. split_and!; try done.
+        unfold is_credited in Hcr. simpl in Hcr. rewrite (creds_of_lookup _ _ Hx) in Hcr.
+        exact (wt_creds_range _ _ Hwx _ Hcr).
+  Qed.
+
+  Lemma sum_quads_unspent minconf sync now :
+    sumZ (map (wq minconf sync now) quads) =
+    sumZ (map (w2 minconf sync now) (map_to_list (unspent s))).
+  Proof.
+    rewrite (sumZ_map_filter quad_live).
+    2:{ intros [[[t h] bh] i] _ Hnl. unfold wq, w_out. simpl.
+        destruct (bool_decide (h < _)); [done|].
+        destruct (keepb (t, i) now); [|done].
+        destruct (credits s !! (t, h, bh, i)) as [cv|] eqn:Hcv; [|done].
+        destruct (c_spent cv) eqn:Hsp; [done|].
+        exfalso. apply Hnl. unfold quad_live. simpl. by eapply credit_unspent. }
+    rewrite <-(sumZ_perm _ _ (Permutation_map (w2 minconf sync now) quads_unspent_perm)).
+    rewrite sumZ_map_map. apply sumZ_map_ext.
+    intros [[[t h] bh] i] Hin. apply elem_of_list_filter in Hin as [Hlive _].
+    unfold quad_live in Hlive. simpl in Hlive.
+    destruct (unspent_credit _ _ _ Hlive) as (cv & Hcv & Ha & Hsp). simpl in Hcv.
+    unfold wq, w2, w_out, quad_entry. simpl.
+    destruct (bool_decide (h < _)); [done|].
+    destruct (keepb (t, i) now); [|done].
+    rewrite Hcv, Hsp, Ha. done.
+  Qed.
+
+  Lemma balance_as_utxo_sum minconf sync now :
+    balance U s minconf sync now =
+    sumZ (omap (bal_contrib minconf sync) (unspent_outputs U s now)).
+  Proof.
+    rewrite balance_unfold, sum_blocks_quads, sum_quads_unspent, (inv_bal U s F HI).
+    rewrite unspent_outputs_alt, omap_app, sumZ_app, !omap_omap, !sumZ_omap.
+    rewrite !sumZ_map_sub. f_equal.
+    - apply sumZ_map_ext. intros [[t i] [h bh]] Hin. apply elem_of_map_to_list in Hin.
+      destruct (unspent_credit _ _ _ Hin) as (cv & Hcv & Ha & Hsp). simpl in Hcv.
+      pose proof Hin as Hin'. apply (inv_unspent U s F HI) in Hin' as (Hc & _ & _). simpl in Hc.
+      destruct (known_in_universe t) as (x & Hx & Hwx); [left; by eexists|].
+      pose proof (fw_heights_nonneg U F (inv_wf U s F HI) _ _ _ Hc) as Hh.
+      unfold w1, w2, mined_fn. simpl. rewrite Hcv, Ha.
+      destruct (keepb (t, i) now); simpl.
+      + rewrite Hx. simpl. unfold bal_contrib. simpl.
+        rewrite (amount_of_lookup (t, i) x Hx). simpl.
+        rewrite (bool_decide_eq_false_2 (h < 0)) by lia.
+        unfold young, is_coinbase. rewrite Hx. unfold coinbase_maturity.
+        destruct (t_coinbase x); simpl; repeat case_bool_decide; simpl; lia.
+      + destruct (bool_decide (h < _)); simpl; lia.
+    - transitivity (sumZ (map (λ kv, if bool_decide (minconf = 0) then w3 now kv else 0)
+                              (map_to_list (unmined_credits s)))).
+      { destruct (bool_decide (minconf = 0)); [done|]. symmetry. by apply sumZ_map_zero. }
+      apply sumZ_map_ext. intros [[t i] [a chg]] Hin. apply elem_of_map_to_list in Hin.
+      apply (inv_unmined_credits U s F HI) in Hin as (Hu & _ & Ha). simpl in Hu.
+      destruct (known_in_universe t) as (x & Hx & Hwx); [by right|].
+      destruct (proj2 (inv_unmined U s F HI t) Hu) as [[] Hm].
+      unfold w3, unm_fn. simpl. rewrite Hm, Hx.
+      destruct (keepb (t, i) now); simpl; [|by destruct (bool_decide (minconf = 0))].
+      unfold bal_contrib. simpl. rewrite Ha, (amount_of_lookup (t, i) x Hx). simpl.
+      by destruct (bool_decide (minconf = 0)).
+  Qed.
+
+  Lemma spec_balance_as_utxo_sum minconf sync now :
+    spec_balance U F minconf sync now =
+    sumZ (omap (bal_contrib minconf sync) (spec_utxos U F now)).
+  Proof.
+    rewrite spec_utxos_alt, omap_omap. unfold spec_balance. fold sumZ. f_equal.
+    apply omap_ext_elem. intros [[t i] chg] Hin. unfold utxo_fn. simpl.
+    destruct (_ || _); [done|]. simpl. unfold bal_contrib, mk_utxo, confs_of.
+    destruct (f_conf F !! t_id t) as [[h bh]|] eqn:Hc; simpl.
+    - pose proof (fw_heights_nonneg U F (inv_wf U s F HI) _ _ _ Hc) as Hh.
+      rewrite (bool_decide_eq_false_2 (h < 0)) by lia. done.
+    - done.
+  Qed.
+End obs.
+
+Lemma utxos_correct : utxos_statement.
+Proof.
+  intros U s F now Hwf HI. apply NoDup_Permutation.
+  - by eapply NoDup_unspent_outputs.
+  - by eapply NoDup_spec_utxos.
+  - intros u. etrans; [by eapply elem_of_unspent_outputs|]. symmetry. by eapply elem_of_spec_utxos.
+Qed.
+
+Lemma balance_correct : balance_statement.
+Proof.
+  intros U s F minconf sync now Hwf HI _ _.
+  erewrite balance_as_utxo_sum by done.
+  erewrite spec_balance_as_utxo_sum by done.
+  apply sumZ_perm. apply omap_Permutation. by apply utxos_correct.
 Qed.
